@@ -605,7 +605,9 @@ impl WorldB {
             obs.violate("C05", "connected-address-is-not-the-responding-address", "addr", format!("{} vs {}", addr, src));
         }
         // the one genuine token with this id AND this user data
-        let tid = self.tokens.iter().position(|t| t.id == id && &t.user_data == user_data);
+        // (when the application gives several tokens the same user data, the token is the one whose keys sealed the response)
+        let by_trigger = trigger.and_then(|ix| self.ledger[ix].tid).filter(|&t| self.tokens[t].id == id && &self.tokens[t].user_data == user_data);
+        let tid = by_trigger.or_else(|| self.tokens.iter().position(|t| t.id == id && &t.user_data == user_data));
         let mut sess_tid = tid.unwrap_or(0);
         match tid {
             None => {
@@ -792,6 +794,11 @@ impl WorldB {
             s.lenient_ms = s.clock_ms;
         }
         let tainted_before = self.slots[slot].rx_taint;
+        if earlier_session && (before != after || (protected && in_window)) {
+            // ... and its receive timer has been refreshed: the silent-server clause is judged from here
+            let s = &mut self.slots[slot];
+            s.lenient_ms = s.clock_ms;
+        }
         if earlier_session && protected && in_window {
             // the known cross-session replay is accepted by the client (visibly or silently): its window has moved, the model
             // follows and stops judging this client's receive side (judged above for this datagram itself)
